@@ -54,6 +54,7 @@ def parseAct (toks : List String) : Option Act :=
   | ["cExc"] => some .cExc
   | ["cCmdShutdown"] => some .cCmdShutdown
   | ["cUptime"] => some .cUptime
+  | ["cIsAlive", t, v] => do pure (.cIsAlive (← t.toNat?) (← parseBool v))
   | ["cJoin", t] => do pure (.cJoin (← t.toNat?))
   | ["cFinalSaveBegin"] => some .cFinalSaveBegin
   | ["cFinalSaveEnd"] => some .cFinalSaveEnd
@@ -62,7 +63,7 @@ def parseAct (toks : List String) : Option Act :=
 
 def showThread (th : BThread) : String :=
   s!"{repr th.pc}|f={showBool th.pausedFlag}|x={showBool th.excFlag}|lp={showBool th.localPaused}" ++
-  s!"|n={showBool th.notified}|h={showBool th.holds}|cb={repr th.inCb}|td={th.tdBegun}"
+  s!"|n={showBool th.notified}|h={showBool th.holds}|cb={repr th.inCb}|td={th.tdBegun}|j={showBool th.joined}"
 
 def showState (s : St) : String :=
   s!"resume={showBool s.resume} shutdown={showBool s.shutdown} clockPaused={showBool s.clockPaused} " ++
